@@ -24,7 +24,7 @@ CLAIMS = {
              technique='TLC model checking of ZogExec (all visit orders) + TLC trace validation of runs under every forced order', ref='5 C09'),
  'C03': dict(text='Structural part through the traversal machine: TLC checks C03_Dest / M_DestAll (destination = RefDestParse: coerced leaf, default, untouched absent optional, slice length and order, '
                   'pointer allocation, fields the schema does not name) for all visit orders; the logged destination of every successful real Parse is compared with RefDestParse by TLC. '
-                  'Leaf representations covered: native, string and float64 (JSON number) forms of int/float/bool/string/time.',
+                  'Leaf coercions: the documented-coercion table spec/Tab_C03.tla (bool words, %v strings, RFC3339 / Time.Format / unix seconds, scalar-to-slice, custom coercer, global override; every row replayed at the root and as a struct field) and the numeric rows of Tab_C18 that the documentation promises succeed.',
              technique='TLC model checking of ZogExec + TLC trace validation of recorded real executions (Trace_Exec)', ref='5 C03'),
  'C04': dict(text='C04 is a finite decision table (spec/Tab_C04.tla: node kind x Required/Default/NotNil x input class x mode x position, 1784 rows). TLC checks that the reference semantics obeys the literal '
                   'statement of C04 on every row (TableOK), model-checks the traversal machine on every row (C04_Machine), and emits every row; all rows are replayed on the real library and validated by TLC '
@@ -54,6 +54,11 @@ CLAIMS = {
                   'real API and after EVERY operation every live schema is probed in Parse and Validate; TLC validates the observations against the ghost.',
              technique='TLC model checking of ZogBuild + TLC trace validation of builder histories executed on the real API (Trace_Build)', ref='5 C16, 3.6',
              note='Trusted: the probe (self-identifying fields, tests, transforms). Field schemas are shared by reference (documented shallow semantics).'),
+ 'C18': dict(engine='Tables', text='C18 is a finite decision table (spec/Tab_C18.tla): source representation x numeric schema x symbolic magnitude point (at and beyond every type bound, NaN, Inf). TLC checks the table '
+                  'invariant NeverSilentlyChanged, emits every row and recomputes the allowed outcomes of every logged observation; the harness concretises each row at the point and at neighbours and classifies the '
+                  'real outcome exactly with math/big (same / truncated toward zero / coerce issue / changed).',
+             technique='TLC-checked decision table + exhaustive replay of its rows on the real library with a math/big oracle, validated by TLC', ref='5 C18, 3.8',
+             note='TLC contributes the enumeration, the table-level invariant and the row-by-row validation; the magnitudes are symbolic in TLA+ (32-bit integers) and membership of concrete values in the classes is trusted harness code.'),
 }
 NA_REASON = 'check not built yet (work in progress; DESIGN.md section 11 gives the build order)'
 checks = []
@@ -68,7 +73,8 @@ for p in props:
 m = dict(version=1, setup_cmd='bin/setup',
          hooks=dict(guard='verif', enable='go build -tags verif (harness module replaces github.com/Oudwins/zog with /repo)',
                     baseline_off_cmd='cd /repo && go test -vet=off -count=1 ./...', source_commits=hook_commits, add_only=True),
-         engines=[dict(name='ZogBuild', path='/verif/spec/ZogBuild.tla', serves_properties=['C16'], kind_free_text='TLA+ model of builder histories over Go slices with backing-array identity + trace validation'),
+         engines=[dict(name='Tables', path='/verif/spec/Tab_C18.tla', serves_properties=['C18', 'C03', 'C04'], kind_free_text='finite decision tables in TLA+ (Tab_C03, Tab_C04, Tab_C18): TLC checks table invariants, emits rows, validates observed outcomes'),
+                  dict(name='ZogBuild', path='/verif/spec/ZogBuild.tla', serves_properties=['C16'], kind_free_text='TLA+ model of builder histories over Go slices with backing-array identity + trace validation'),
                   dict(name='ZogPools', path='/verif/spec/ZogPools.tla', serves_properties=['C07', 'C08'], kind_free_text='TLA+ model of pooled objects, call histories and goroutines (TLC) + history replay + TLC trace validation of pool events'),
                   dict(name='ZogExec', path='/verif/spec/ZogExec.tla', serves_properties=[p for p in props if p in CLAIMS and CLAIMS[p].get('engine', 'ZogExec') == 'ZogExec'],
                        kind_free_text='TLA+ traversal machine (TLC) + Go conformance harness + TLC trace validation')],
